@@ -7,7 +7,7 @@ from model import (dstr, strip, fact_holds, mentions_field, mentions_call, menti
 from rules import (guarded, calls_to, field_writes, who_may_write, who_may_call, full_range,
                    loops_over, every_iteration_passes, basename, origins, is_var, is_enum,
                    lastname, dominated_by, reject_if, must_pass, reached_only_via, deep_resolve,
-                   header_iff_empty)
+                   header_iff_empty, linear, block_env)
 
 ENTRY_FIELDS = ['BuildLog::LogEntry::start_time', 'BuildLog::LogEntry::end_time',
                 'BuildLog::LogEntry::mtime', 'BuildLog::LogEntry::command_hash']
@@ -187,6 +187,17 @@ def run(ctx):
                 ctx.inst('C08.TA1', f.where(e), 'the reader parses the header with the same kFileSignature')
     ctx.check('C08.TA1', nsig >= 4, 'BuildLog', 'header:signature-sites', load.loc,
               'writer(s) and reader use the kFileSignature constant (%d sites)' % nsig)
+    # the line reader looks for the newline in everything it has: each search ends at buf_end_
+    lrd = prog.fn('LineReader::ReadLine')
+    nsearch = 0
+    for e in lrd.calls('memchr'):
+        nsearch += 1
+        env = block_env(lrd, e)
+        end = linear(lrd, {'k': 'bin', 'op': '+', 'l': e['args'][0], 'r': e['args'][2]}, env)
+        want = linear(lrd, {'k': 'mem', 'n': 'LineReader::buf_end_', 'b': {'k': 'this'}, 'arrow': True}, env)
+        ctx.check('C08.N1', end == want and const_value(e['args'][1]) == 10, lrd.name, 'LineReader:search-stops-short', lrd.where(e),
+                  'memchr(p, \'\\n\', n) searches up to the end of the buffered data (p + n = %s, buf_end_ = %s)' % (end, want))
+    ctx.check('C08.N1', nsearch >= 2, lrd.name, 'LineReader:searches', lrd.loc, '%d newline searches in LineReader::ReadLine' % nsearch)
     header_iff_empty(ctx, 'C08.TA1', prog.fn('BuildLog::OpenForWriteIfNeeded'),
                      lambda x: x.get('name') == 'fprintf' and mentions_var(x.get('args'), 'kFileSignature'), 'BuildLog::log_file_')
     ctx.floor('C08.TA1', 14)
